@@ -380,7 +380,8 @@ class Mode(LogMixin):
 
         # Clean up the mode handlers and devices
         self._remove_mode_event_handlers()
-        # delays added while the mode was stopping (after stop() cleared them)
+        # switch handlers and delays added while the mode was stopping (after stop() removed them)
+        self._remove_mode_switch_handlers()
         self.delay.clear()
         self._remove_mode_devices()
 
